@@ -64,4 +64,6 @@ F49 apply_params without sources= no longer shares
 F50 modifiers.annotate can annotate a parameter called self
 F53 annotations of functools.wraps wrappers are resolved
 F55 takes loops into account
+F56 also falls back when unpacking a value raises
+F57 reads methods and nested functions whose source has lines indented less
 LIST
